@@ -188,6 +188,7 @@ func c02Gen(t *rapid.T) c02Case {
 	}
 	c.Spec.Clients = []ClientSpec{cs}
 	c.SlowReader = rapid.IntRange(0, 5).Draw(t, "slow") == 0
+	c.Spec.Abandoned = genAbandoned(t)
 	if n >= 2 && rapid.IntRange(0, 2).Draw(t, "holdhead") == 0 {
 		c.HoldHead = true
 		k0 := keyOfReq(&c.Spec.Clients[0].Reqs[0])
@@ -260,6 +261,9 @@ func c02Classify(c *c02Case) (bool, []string) {
 	if c.NodePause > 0 {
 		nt = true
 		cls = append(cls, "backend-not-reading")
+	}
+	if len(c.Spec.Abandoned) > 0 {
+		cls = append(cls, "after-clients-that-left-mid-request")
 	}
 	if c.Cfg.Password != "" {
 		cls = append(cls, "password")
